@@ -27,8 +27,8 @@ def scenarios(tier):
     out = []
     for T in ("inch", "rel", "translate"):
         out.append(Scenario("c08-" + T, ProductWorld, dict(prop="C08", T=T, world=w),
-                            (PATH + [("HOME", "XY")]) if T != "translate" else PATH[:-1],
-                            max_depth=(6 if q else 8) if T != "translate" else (7 if q else 9), max_states=3000000))
+                            (PATH + [("HOME", "XY"), ("HOME", "W")]) if T != "translate" else PATH[:-1],
+                            max_depth=(5 if q else 8) if T != "translate" else (7 if q else 9), max_states=3000000))
     out.append(Scenario("c08-g92", ProductWorld, dict(prop="C08", T="g92", world=w), PATH, max_depth=4 if q else 6,
                         max_states=3000000, finding="D16", note="dedicated to known finding D16 (G92 X/Y/Z offset sign)"))
     return out
